@@ -333,7 +333,10 @@ func runForwarder(url string, h handlerScript, id string, gate func(k int)) (clo
 		if h.Trailer {
 			rw.Header().Set("Trailer", "X-Sum")
 		}
-		rw.Header().Set("Content-Type", "application/octet-stream")
+		if !strings.Contains(h.Name, "-noct") {
+			// (scripts named "...-noct": a backend that says nothing about the media type of its response)
+			rw.Header().Set("Content-Type", "application/octet-stream")
+		}
 		rw.Header().Set("X-Script", h.Name)
 		if strings.HasSuffix(h.Name, "-cl") {
 			// the backend announces the length of its response (as ReverseProxy passes it on)
@@ -690,9 +693,14 @@ func streamDriver(a *Args) {
 	// 2 KB and 4 KB: the response is streamed all the same)
 	nPlain := len(chunkings)
 	chunkings = append(chunkings, []int{10, 10, 10}, []int{1024, 1024}, []int{683, 683, 683}, []int{1000, 1000, 1000}, []int{1, 4095}, []int{3000, 3000})
+	// ... and small first chunks of a response that names no media type (nothing to sniff 512 bytes for)
+	nCL := len(chunkings)
+	chunkings = append(chunkings, []int{5, 5, 5}, []int{1, 600, 1}, []int{200, 200, 200, 200})
 	for i, c := range chunkings {
 		h := handlerScript{Name: fmt.Sprintf("lock%d", i), Pieces: c, Trailer: i%2 == 0}
-		if i >= nPlain {
+		if i >= nCL {
+			h = handlerScript{Name: fmt.Sprintf("lock%d-noct", i), Pieces: c, Trailer: i%2 == 0}
+		} else if i >= nPlain {
 			h = handlerScript{Name: fmt.Sprintf("lock%d-cl", i), Pieces: c, Trailer: false}
 		}
 		lockStepInProcess(res, i, h, c, "")
@@ -845,7 +853,11 @@ func streamAgent(a *Args, chunkings [][]int) {
 		defer close(c.finished)
 		fl, _ := w.(http.Flusher)
 		var obs *streamObserver
-		w.Header().Set("Content-Type", "application/octet-stream")
+		if strings.Contains(c.h.Name, "-noct") {
+			w.Header()["Content-Type"] = nil // (a backend that names no media type; net/http must not sniff one either)
+		} else {
+			w.Header().Set("Content-Type", "application/octet-stream")
+		}
 		w.WriteHeader(200)
 		for k := range c.h.Pieces {
 			hx.Emit("Produce", "k", k+1, "n", c.h.Pieces[k])
@@ -882,6 +894,9 @@ func streamAgent(a *Args, chunkings [][]int) {
 	for i, c := range chunkings {
 		id := fmt.Sprintf("s%d", i)
 		h := handlerScript{Name: "agentlock" + id, Pieces: c, Trailer: false}
+		if i%4 == 3 || i >= len(chunkings)-3 {
+			h.Name += "-noct" // every fourth stream (and the small-chunk ones at the end) names no media type
+		}
 		cu := &cur{h: h, obs: make(chan *streamObserver, 1), finished: make(chan struct{})}
 		mu.Lock()
 		active[id] = cu
